@@ -1,11 +1,89 @@
 import Driver.Proto
-import Driver.C16
 import TonicModel.Model.WebClient
 import TonicModel.Spec.GrpcWeb
 namespace DriverC17
 open Proto WebServer WebClient
-open DriverC16 (parseEvs parseOuts renderOuts join isData firstFail dataThenEos)
 open TMap (Pair str)
+
+/-! token helpers (same text form as C16's driver; kept local so that this module imports only
+`Driver.Proto` and the model/spec) -/
+
+def parsePairs : Nat → List String → Option (List Pair × List String)
+  | 0, r => some ([], r)
+  | n + 1, k :: v :: r => do
+    let kb ← unhex k
+    let vb ← unhex v
+    let (ps, r') ← parsePairs n r
+    some ((kb, vb) :: ps, r')
+  | _ + 1, _ => none
+
+def parseEvsAux : Nat → List String → Option (List BodyEv)
+  | _, [] => some []
+  | 0, _ => none
+  | f + 1, "d" :: h :: r => do
+    let b ← unhex h
+    let es ← parseEvsAux f r
+    some (.data b :: es)
+  | f + 1, "e" :: r => (parseEvsAux f r).map (.err :: ·)
+  | f + 1, "p" :: r => (parseEvsAux f r).map (.pending :: ·)
+  | f + 1, "t" :: n :: r => do
+    let n ← nat? n
+    let (ps, r') ← parsePairs n r
+    let es ← parseEvsAux f r'
+    some (.trailers ps :: es)
+  | _ + 1, _ => none
+
+def parseEvs (ts : List String) : Option (List BodyEv) := parseEvsAux (ts.length + 1) ts
+
+def renderPairs (ps : List Pair) : List String :=
+  ps.flatMap (fun p => [hex p.1, hex p.2])
+
+def renderOuts : List Out → List String
+  | [] => []
+  | .data b :: r => "d" :: hex b :: renderOuts r
+  | .trailers h :: r => "t" :: toString h.length :: (renderPairs h ++ renderOuts r)
+  | .err :: r => "err" :: renderOuts r
+  | .eos :: r => "eos" :: renderOuts r
+
+/-- observed frame tokens back into `Out`s -/
+def parseOutsAux : Nat → List String → Option (List Out)
+  | _, [] => some []
+  | 0, _ => none
+  | f + 1, "d" :: h :: r => do
+    let b ← unhex h
+    let os ← parseOutsAux f r
+    some (.data b :: os)
+  | f + 1, "err" :: r => (parseOutsAux f r).map (.err :: ·)
+  | f + 1, "eos" :: r => (parseOutsAux f r).map (.eos :: ·)
+  | f + 1, "t" :: n :: r => do
+    let n ← nat? n
+    let (ps, r') ← parsePairs n r
+    let os ← parseOutsAux f r'
+    some (.trailers ps :: os)
+  | _ + 1, _ => none
+
+def parseOuts (ts : List String) : Option (List Out) := parseOutsAux (ts.length + 1) ts
+
+def join (ts : List String) : String := String.intercalate " " ts
+
+def onlyData : List Out → Bool
+  | [] => true
+  | .data _ :: r => onlyData r
+  | _ => false
+
+/-- all `Out`s are data except a final `eos` -/
+def dataThenEos (o : List Out) : Bool :=
+  o.getLast? == some .eos && onlyData o.dropLast
+
+def isData : BodyEv → Bool
+  | .data _ => true
+  | _ => false
+
+def firstFail (vs : List String) : String :=
+  match vs.find? (· != "ok") with
+  | some v => v
+  | none => "ok"
+
 
 def bytesLe : Bytes → Bytes → Bool
   | [], _ => true
